@@ -101,6 +101,8 @@ def extract(repo, facts_dir, stamp, all_targets=False, log=None):
                 shutil.rmtree(os.path.join(fp, d), ignore_errors=True)
     cmd = ["cargo", "+nightly", "check", "--offline", "--workspace", "--exclude", "p2panda-fuzz"]
     cmd += ["--all-targets"] if all_targets else ["--lib"]
+    if not os.path.exists(os.path.join(repo, "Cargo.lock")) and os.path.exists(os.path.join(REPO, "Cargo.lock")):
+        shutil.copy(os.path.join(REPO, "Cargo.lock"), os.path.join(repo, "Cargo.lock"))
     r = subprocess.run(cmd, cwd=repo, env=_cargo_env(facts_dir, stamp),
                        stdout=subprocess.PIPE, stderr=subprocess.STDOUT, text=True)
     if log:
@@ -113,10 +115,11 @@ def extract(repo, facts_dir, stamp, all_targets=False, log=None):
     return r.stdout
 
 
-def ensure_facts(all_targets=False, repo=REPO):
-    """Facts for the current working tree of `repo`; returns (dir, stamp, cached)."""
+def ensure_facts(all_targets=False, repo=REPO, tag=""):
+    """Facts for the current working tree of `repo`; returns (dir, stamp, cached).
+    `tag` names a separate cache slot (self-tests on scratch copies must not evict /repo's facts)."""
     stamp = tree_hash(repo)
-    kind = "all" if all_targets else "lib"
+    kind = ("all" if all_targets else "lib") + tag
     base = os.path.join(WORK, "facts")
     os.makedirs(base, exist_ok=True)
     d = os.path.join(base, "%s-%s" % (stamp, kind))
